@@ -2,7 +2,9 @@ SPECIFICATION ObsSpec
 CONSTANTS
   Models <- TraceModels
   InputSets <- TraceInputSets
-  Pids = {"p1"}
+  Pids = {"p1", "p2", "p3", "p4", "p5", "p6", "p7", "p8", "p9", "p10", "p11", "p12", "p13", "p14", "p15", "p16", "c1", "d1", "g1"}
+  TopPids = {"p1"}
+  StartAny = FALSE
   MaxActions = 100000
   ActionKinds = {"complete"}
   ErrCodes = {"e1", "e2"}
